@@ -354,3 +354,30 @@ func ModelKeys() [][2]int {
 func TypeOf(pen uint32, id uint16) ref.AType {
 	return AType(ipfix.InfoModel[ipfix.ElementKey{EnterpriseNo: pen, ElementID: id}].Type)
 }
+
+// CacheKey renders the cache content canonically (sorted by key, timestamps dropped) from
+// the exported cache structure.
+func CacheKey(c *Caches, v9 bool) string {
+	var items []string
+	if v9 {
+		for si, sh := range c.N {
+			if sh == nil {
+				continue
+			}
+			for k, v := range sh.Templates {
+				items = append(items, fmt.Sprintf("%d/%d:%+v", si, k, v.Template))
+			}
+		}
+	} else {
+		for si, sh := range c.I {
+			if sh == nil {
+				continue
+			}
+			for k, v := range sh.Templates {
+				items = append(items, fmt.Sprintf("%d/%d:%+v", si, k, v.Template))
+			}
+		}
+	}
+	sort.Strings(items)
+	return fmt.Sprint(items)
+}
